@@ -208,6 +208,8 @@ def is_sequence_type(value: str, parser: ta.XPathParserType | None = None) -> bo
             except ValueError:
                 return False
             else:
+                if arg2.endswith('?') and st.startswith('element('):
+                    arg2 = arg2[:-1]  # element(N, T?): nilled elements allowed
                 return (arg1 == '*' or Patterns.extended_qname.match(arg1) is not None) \
                        and Patterns.extended_qname.match(arg2) is not None
 
